@@ -59,6 +59,7 @@ def leaky_relu(x:Tensor, negative_slope=0.01):
     """
     if not isinstance(x, Tensor):
         raise TypeError(f"Expected x to be a Tensor but got {type(x)}")
+    if isinstance(negative_slope, np.generic): negative_slope = negative_slope.item() # NumPy scalars must not promote the dtype
     
     if x.device == Device.CPU:
         out_data = cpu_ops.leaky_relu_forward(x.data, negative_slope)
@@ -970,6 +971,8 @@ def batch_norm(x:Tensor, weight:Tensor=None, bias:Tensor=None, running_mean:Tens
     """
     if not isinstance(x, Tensor):
         raise TypeError(f"Expected x to be a Tensor but got {type(x)}")
+    if isinstance(eps, np.generic): eps = eps.item() # NumPy scalars must not promote the dtype
+    if isinstance(momentum, np.generic): momentum = momentum.item()
     
     if running_mean is not None and not isinstance(running_mean, Tensor):
         raise TypeError(f"Expected running_mean to be a Tensor but got {type(running_mean)}")
